@@ -246,6 +246,24 @@ def regen():
     return rc == 0, out
 
 
+def _restore_gen():
+    """after a run against a scratch copy of the repository (VERIF_REPO): leave coq/gen as generated from /repo, so that people
+    compiling single files by hand between check runs see the real repository's translation (every check regenerates for itself
+    anyway, inside the build lock)"""
+    try:
+        with Lock("coq"):
+            env = dict(os.environ)
+            env["VERIF_REPO"] = "/repo"
+            sh([sys.executable, os.path.join(ROOT, "tools", "extract_src.py")], timeout=300, env=env)
+    except Exception:
+        pass
+
+
+if REPO != "/repo" and os.path.isdir("/repo"):
+    import atexit
+    atexit.register(_restore_gen)
+
+
 def coq_make(targets, timeout=3000, with_regen=False):
     """make of the given targets under the exclusive build lock; with_regen: the translator-lite runs inside the same critical
     section, so that the generated files the proofs are compiled against are the ones made from THIS check's repository
